@@ -1,8 +1,9 @@
 (* C04 — assertions and sub-expression contexts never disturb the surrounding
-   stack.  Statements over the specification (Den.v); the engine model is
-   tied to the specification by the correspondence check (and C01). *)
+   stack.  Statements over the specification (Den.v) and, at the end, over the
+   engine model (Engine.v: op_assert, op_subx, op_capture); the engine model is
+   tied to the implementation by the correspondence check. *)
 From Coq Require Import ZArith NArith List Bool String.
-From Dwgrep Require Import Radix Value Words Tree Engine Build Den DenProofs.
+From Dwgrep Require Import Radix Value Words Tree Engine Build Den DenProofs NeutralProofs.
 Import ListNotations.
 Local Open Scope string_scope.
 
@@ -49,6 +50,35 @@ Theorem C04_capture_adds_one : forall P prog f c env stk evs ab,
   forall s e, List.In (DOut s e) evs -> exists vs, s = VSeq vs 0 :: stk /\ e = env.
 Proof. exact capture_adds_one. Qed.
 Print Assumptions C04_capture_adds_one.
+
+(* ---- the same on the engine model (the ops as the C++ runs them) ---- *)
+
+(* op_assert (?(E), !(E), infix, ?word/!word): a stack that comes out is a stack
+   the upstream chain yielded, unchanged, and the op's state afterwards wraps
+   the upstream's state after that very pull: nothing is dropped, duplicated,
+   re-ordered or altered - stacks are only filtered *)
+Theorem C04_engine_assert_forwards : forall P blks f env up p c s stk m' c' s' e,
+  EngineM.next P blks f env (MAssert up p) c s = Ret (Some stk, m', c', s', e) ->
+  exists up1, m' = MAssert up1 p /\ pulled_before P blks f env stk up1 c'.
+Proof. exact assert_forwards. Qed.
+Print Assumptions C04_engine_assert_forwards.
+
+(* op_subx (let bodies, operands of infix assertions): the stack that comes out
+   is the saved one - the stack the upstream yielded - with exactly `keep`
+   values of the sub-expression's result on top *)
+Theorem C04_engine_subx_keeps : forall P blks f env up inner keep saved slot c s stk m' c' s' e,
+  EngineM.next P blks f env (MSubx up inner keep saved slot) c s = Ret (Some stk, m', c', s', e) ->
+  exists sv sub, stk = (firstn keep sub ++ sv)%list /\ (keep <= List.length sub)%nat /\
+    (saved = Some sv \/ exists up1 c1, pulled_before P blks f env sv up1 c1).
+Proof. exact subx_keeps. Qed.
+Print Assumptions C04_engine_subx_keeps.
+
+(* op_capture ([E]): the upstream's stack with one sequence on top *)
+Theorem C04_engine_capture_adds_one : forall P blks f env up inner c s stk m' c' s' e,
+  EngineM.next P blks f env (MCapture up inner) c s = Ret (Some stk, m', c', s', e) ->
+  exists vs below up1, stk = VSeq vs 0%N :: below /\ m' = MCapture up1 inner /\ pulled_before P blks f env below up1 c'.
+Proof. exact capture_forwards. Qed.
+Print Assumptions C04_engine_capture_adds_one.
 
 Example C04_nonvacuous :
   let tc := ValueM.mktc 2 3 4 5 [] in
